@@ -37,7 +37,7 @@ var propConfigs = map[string]propConfig{
 		Explain: "Meta events returned by syncRegister/syncUnregister/syncRemoveSession and sent by syncPubSubMeta; regMatch uses the same best-match function as routing.",
 		Assume: []string{}},
 	"C20": {ID: "C20", Level: "proof",
-		Explain: "Event history: syncSaveEvent keeps at most limit entries dropping the oldest, syncPubEvent saves exactly the unrestricted publications with id, arguments and subscription, independent of subscribers.",
+		Explain: "Event history: syncSaveEvent keeps at most limit entries dropping the oldest, syncPubEvent saves exactly the unrestricted publications with id, arguments and subscription, independent of subscribers. Of the query's filters the topic filter is proved (loop invariant: every returned event carries the asked topic).",
 		Assume: []string{"github.com/gammazero/deque is a sequence ADT (PushBack/PopFront/Len/At)"}},
 	"C04": {ID: "C04", Level: "proof", SafetyOnly: true,
 		Sweep: []string{repoMod + "/router.", repoMod + "/wamp.", repoMod + "/router/auth.", repoMod + "/transport."},
@@ -53,7 +53,7 @@ var propConfigs = map[string]propConfig{
 	"C17": {ID: "C17", Level: "proof", SafetyOnly: true,
 		Sweep:     []string{repoMod + "/client."},
 		SweepSkip: sweepSkipC17,
-		Explain: "Zero-annotation safety sweep of the client package plus contracts where context is needed: every function that processes what the router sends (run, runReceiveFromRouter, runHandleEvent, runHandleInvocation and its goroutines, runHandleInterrupt, runSignalReply, joinRealm, handleCRAuth, waitForReply*, prepareCallResultMessage, the payload-passthru unpackers, the blocking API calls that interpret replies) has one obligation per possible panic, discharged for arbitrary router messages: any message type with any details/arguments of any dynamic type.",
+		Explain: "Zero-annotation safety sweep of the client package plus contracts where context is needed: every function that processes what the router sends (run, runReceiveFromRouter, runHandleEvent, runHandleInvocation and its goroutines, runHandleInterrupt, runSignalReply, joinRealm, handleCRAuth, waitForReply*, prepareCallResultMessage, the payload-passthru unpackers, the blocking API calls that interpret replies) has one obligation per possible panic, discharged for arbitrary router messages: any message type with any details/arguments of any dynamic type. One hang clause beyond panic freedom: every send of the invocation goroutine to the router is a select case that also watches the client's context.",
 		Assume: []string{
 			"functions without contract: pointer parameters/receivers and method-bearing interface parameters (other than error) are not nil; the latter is asserted at every call site of such a function",
 			"application-supplied values are well-formed: handlers and callbacks passed to Subscribe/Register/Call are functions, contexts are not nil (contracts on the API entry points)",
@@ -62,10 +62,10 @@ var propConfigs = map[string]propConfig{
 		}},
 	"C15": {ID: "C15", Level: "proof",
 		Bounded: []boundedCheck{{Name: "transport.bytesToInt", Pkg: "transport", Source: "transport_bytestoint_test.go.txt", Target: "verif_bounded_bytestoint_test.go", Run: "^TestBoundedBytesToInt$", Bound: "len(b) == 3, all 2^24 inputs; round trip with intToBytes for all 24-bit lengths", Stands: "bytesToInt#ensures[big-endian-24] (trusted in the deductive part)"}},
-		Explain: "Rawsocket framing and handshake under contract: intToBytes encodes a 24-bit length big-endian (proved), byteToLength/fitRecvLimit implement the 2^(9+n) length code and pick the least code that fits (proved with a loop invariant), sendHandler writes header {0, L2, L1, L0} with the exact length followed by exactly the serialised bytes or nothing (oversized for the peer's announced limit or the 24-bit field, or unserialisable), recvHandler decodes only type-0 frames within its own announced limit, forwards only decoded messages, answers PING with a PONG header of the same length and copies exactly that many bytes, and ends the connection on oversized or reserved-type frames; serverHandshake/clientHandshake create a peer only for a well-formed exchange, with the negotiated serializer and both length limits.",
+		Explain: "Rawsocket framing and handshake under contract: intToBytes encodes a 24-bit length big-endian (proved), byteToLength/fitRecvLimit implement the 2^(9+n) length code and pick the least code that fits (proved with a loop invariant), sendHandler writes header {0, L2, L1, L0} with the exact length followed by exactly the serialised bytes or nothing (oversized for the peer's announced limit or the 24-bit field, or unserialisable), recvHandler decodes only type-0 frames within its own announced limit, forwards only decoded messages, answers PING with a PONG header of the same length and copies exactly that many bytes, and ends the connection on oversized or reserved-type frames; serverHandshake/clientHandshake create a peer only for a well-formed exchange, with the negotiated serializer and both length limits. Send loops: the rawsocket sender returns only when the peer is closed; the websocket send loops return only after a failed connection write, keep-alive expiry or close (return-site universals over the lastresult/selected ghosts), so an unserialisable message is dropped alone.",
 		Assume: []string{"net.Conn, io.ReadFull and io.CopyN behave as documented (trusted models); the serializers return bytes / a message or an error (interface contracts; codecs are third-party)", "bytesToInt is covered by a bounded exhaustive check, not by proof (listed under bounded)", "websocket framing (gorilla) and the 'same behaviour over every transport' half of the property are not covered", "concurrent interleaving of the PONG written by recvHandler with frames written by sendHandler on the same connection is not decided"}},
 	"C16": {ID: "C16", Level: "proof",
-		Explain: "Sequential core of reply routing in the client: a reply is offered only on the channel registered under the request id the reply itself carries (runReceiveFromRouter call-site universal + runSignalReply send-site universal), and a waiter gets a real message or an error; on context cancellation a CANCEL naming this call is sent to the router.",
+		Explain: "Sequential core of reply routing in the client: a reply is offered only on the channel registered under the request id the reply itself carries (runReceiveFromRouter call-site universal + runSignalReply send-site universal), and a waiter gets a real message or an error; on context cancellation a CANCEL naming this call is sent to the router. Callee side: the kill switch stored under an invocation's request id cancels the context recorded for that invocation (cancellation relation of the context package), and every send of the invocation goroutine to the router gives way to the client's own context.",
 		Assume: []string{"schedule-dependent parts (progress handler never after return, replies coinciding with timeouts, handler serialisation) are not decided", "context.Context.Err() is non-nil once Done() has fired (listed assumption)"}},
 	"C07": {ID: "C07", Level: "other", Structural: []string{"nonblocking", "no-blocking-peer-send"},
 		Explain: "Effect contract 'nonblocking' on every function that runs on the broker or dealer goroutine (sync*, trySend, prepareEvent, meta-event builders): checked on the SSA and call graph - no blocking send, receive or select on any path including in-place callees, so every send to a peer from there is a select with default; the in-process router-to-client queue is created with exactly the configured capacity (LinkedPeersQSize postcondition).",
@@ -74,10 +74,10 @@ var propConfigs = map[string]propConfig{
 		Explain: "Attach path: AttachClient sends WELCOME and calls handleSession only after authClient returned without error under the router-assigned session id; the session's identity details come from the router (session id) and the authenticator's WELCOME; authClient returns a welcome only for an in-process peer without required local authentication or when an authenticator registered for an offered method accepted; each built-in authenticator returns a welcome only if the key store vouches (AlreadyAuth) or the response verifies against the challenge issued in this very handshake (wampcra: crsign.VerifySignature over the issued challenge string; ticket: equal to the stored ticket; cryptosign: valid signature whose opened message equals the issued challenge bytes).",
 		Assume: []string{"unforgeability and nonce freshness are cryptographic assumptions (crypto/rand, HMAC-SHA256, ed25519 via nacl/sign.Open are trusted)", "third-party Authenticator / KeyStore implementations are represented by their interface contracts", "peers deliver well-formed messages (a typed nil pointer is never delivered): recvsite assumption"}},
 	"C10": {ID: "C10", Level: "proof",
-		Explain: "Authorization gate: every dispatch call in handleInboundMessages (broker.publish/subscribe/unsubscribe, dealer.call/cancel/yield/register/unregister/error) is reached only if there is no authorizer, the sender is the meta session, or authzMessage returned true for this very message; authzMessage returns true exactly when the peer is in-process and local authorization is off or Authorize returned true, and otherwise sends exactly one ERROR with the message's type, request id and not_authorized / authorization_failed (none for an unacknowledged PUBLISH) and sends nothing when it allows.",
+		Explain: "Authorization gate: every dispatch call in handleInboundMessages (broker.publish/subscribe/unsubscribe, dealer.call/cancel/yield/register/unregister/error) is reached only if there is no authorizer, the sender is the meta session, or authzMessage returned true for this very message; authzMessage returns true exactly when the peer is in-process and local authorization is off or Authorize returned true, and otherwise sends exactly one ERROR with the message's type, request id and not_authorized / authorization_failed (none for an unacknowledged PUBLISH) and sends nothing when it allows. The authorization settings of a realm created from the router's template are the template's (newRealm postcondition, addRealm and AttachClient call-site universals).",
 		Assume: []string{"Authorizer.Authorize is an uninterpreted function of (authorizer, session id, session details, message) that may rewrite dictionaries", "peers deliver well-formed messages (recvsite assumption)"}},
 	"C11": {ID: "C11", Level: "proof", Structural: []string{"immutable-fields", "owned-writes", "owned-calls", "no-mutable-globals", "mapinv-writes"},
-		Explain: "Realm separation: a session is attached only to the realm registered under the HELLO's realm URI (closure of AttachClient on the router goroutine) and authenticated by that same realm; addRealm registers a realm under its own URI; every message of a session is dispatched to the broker and dealer of the realm that handles the session; broker/dealer/realm state is written only by functions running on the owning component (structural ownership checks) and no package-level variable of the router is written after initialisation.",
+		Explain: "Realm separation: a session is attached only to the realm registered under the HELLO's realm URI (closure of AttachClient on the router goroutine) and authenticated by that same realm; addRealm registers a realm under its own URI; every message of a session is dispatched to the broker and dealer of the realm that handles the session; broker/dealer/realm state is written only by functions running on the owning component (structural ownership checks) and no package-level variable of the router is written after initialisation. The serializer types are declared stateless (all fields immutable): one instance per subprotocol is shared by all websocket connections of all realms.",
 		Assume: []string{"freshness of broker/dealer objects per realm follows from newRealm allocating them (constructor postconditions), composition over the router's history is a paper step"}},
 	"C19": {ID: "C19", Level: "proof",
 		Explain: "URI validation, matching and id generation: the real wamp functions are verified against reference languages/spec functions built from the property statement, for all strings (SMT alphabet) and all 64-bit values.",
